@@ -921,6 +921,12 @@ fn gen_corpus(rng: &mut Rng, quick: bool) -> Corpus {
         Mode::Short,
         Mode::Sparse,
     ]);
+    let mode = match std::env::var("C06_TMP_MODE").as_deref() { // TMPDEBUG
+        Ok("Short") => Mode::Short, // TMPDEBUG
+        Ok("Sparse") => Mode::Sparse, // TMPDEBUG
+        Ok("Dense") => Mode::Dense, // TMPDEBUG
+        _ => mode, // TMPDEBUG
+    }; // TMPDEBUG
     let size_class = match mode {
         // posting lists of the frequent words must span several full 128-document blocks
         Mode::Short => rng.weighted(&[0, 2, 3, 5, 1]),
